@@ -75,7 +75,7 @@ func baseKind(kind string) string {
 func isGrp(kind string) bool { return strings.HasSuffix(kind, "grp") }
 
 func endsSession(path string) bool {
-	return path == "drop" || path == "dropearly" || path == "dropinflight" || path == "replace" || path == "heartbeat"
+	return path == "drop" || path == "dropearly" || path == "dropinflight" || path == "dropclogged" || path == "replace" || path == "heartbeat"
 }
 
 func needsPort(kind string) bool { return kind == "tcp" || kind == "udp" || kind == "tcpgrp" }
@@ -276,6 +276,7 @@ func runScen(w *world, g *hx.Gen, sc scen) {
 	s2 := s1
 	iLogin := -1
 	if sc.own || endsSession(sc.path) {
+		w.smallRcvNext = sc.path == "dropclogged"
 		s2 = w.login()
 		iLogin = w.last()
 		if w.broken {
@@ -317,6 +318,27 @@ func runScen(w *world, g *hx.Gen, sc scen) {
 			return
 		}
 		if !mustOK(w.newProxy(s2, subj, npOpts{}), "reregister-refused:"+sc.label()) {
+			return
+		}
+	case "dropclogged":
+		// the peer has sent heartbeats without reading the answers until the server's send queue is full and
+		// its read loop is blocked in Send; then the connection drops.  The dispatcher must still finish
+		// (the send loop keeps draining), so that the teardown runs.
+		code := w.newProxy(s2, subj, npOpts{})
+		if !mustOK(code, "subject-refused:"+sc.label()) {
+			return
+		}
+		if !w.clog(s2) {
+			w.rec.count("clog-not-reached")
+		}
+		w.end(s2, "CDrop")
+		w.pair(iBase, w.last())
+		checkPortFree(subj, code)
+		subjSess = w.login()
+		if w.broken {
+			return
+		}
+		if !mustOK(w.newProxy(subjSess, subj, npOpts{}), "reregister-refused:"+sc.label()) {
 			return
 		}
 	case "drop", "heartbeat", "replace":
@@ -786,6 +808,9 @@ var withExistRace = true
 
 func pathsFor(kind string) []string {
 	ps := []string{"close", "drop", "dropearly", "dropinflight", "replace", "heartbeat", "f:exists", "f:addrace"}
+	if kind == "tcp" {
+		ps = append(ps, "dropclogged") // costs ~3 s (megabytes of unread Pongs): one kind
+	}
 	if withExistRace && (kind == "stcp" || kind == "sudp" || kind == "xtcp") {
 		ps = append(ps, "f:existrace")
 	}
@@ -806,7 +831,7 @@ func pathsFor(kind string) []string {
 	return ps
 }
 
-var allPaths = []string{"close", "drop", "dropearly", "dropinflight", "replace", "heartbeat", "f:exists", "f:used", "f:notallowed", "f:squat",
+var allPaths = []string{"close", "drop", "dropearly", "dropinflight", "dropclogged", "replace", "heartbeat", "f:exists", "f:used", "f:notallowed", "f:squat",
 	"f:noavail", "f:listen", "f:dom2", "f:loc2", "f:first", "f:gkey", "f:gport", "f:gdom", "f:g2dom", "f:grepeat", "f:quota", "f:addrace", "f:existrace"}
 
 // normalise: settle the flags a path or kind forces
@@ -829,8 +854,16 @@ func normalise(sc scen) scen {
 	if sc.path == "dropearly" || sc.path == "dropinflight" {
 		sc.port0 = false
 	}
+	if sc.path == "dropclogged" {
+		sc.pool, sc.serve = 0, false
+	}
 	if sc.path == "f:noavail" {
 		sc.port0 = true
+	}
+	if sc.path == "f:listen" && !sc.rnd {
+		// listen failing after the acquisition: a server-chosen port for udp (the roll-back must release the
+		// ACQUIRED port, not the requested 0), an explicit one for tcp
+		sc.port0 = sc.kind == "udp"
 	}
 	if sc.path == "f:gport" {
 		sc.port0 = false
